@@ -19,14 +19,15 @@ opaque("Backend")
 CALDAV_NS = "urn:ietf:params:xml:ns:caldav"
 
 
-def import_pre(store):
-    return store_inv(store) and forall("opaque:File", lambda f: implies(valid_file(f), uid_outcome(f) != 2))
+def import_pre(store, name, content_type):
+    return (store_inv(store) and forall("opaque:File", lambda f: implies(valid_file(f), uid_outcome(f) != 2))
+            # a generated name (uuid4 + extension) is never the reserved metadata name
+            and implies(name is None, effective_name(name, content_type) != ".xandikos"))
 
 
 def put_refused(store, name, content_type, data):
     """The upload is refused as a precondition failure: not well formed (C14) or a UID conflict (C06)."""
-    f = upload_file(store, name, content_type, data)
-    return not valid_file(f) or refused_dup(store, name, content_type, data)
+    return not accepted_upload(store, name, content_type, data) or refused_dup(store, name, content_type, data)
 
 
 def etag_mismatch(store, name, content_type, replace_etag):
@@ -44,14 +45,14 @@ def new_etag(store, name, content_type, data):
           modifies_on_raise=["self.store._fname_to_uid", "self.store._uid_to_fname"])
 class ObjectResource_set_body:
     def requires(self):
-        return import_pre(self.store)
+        return import_pre(self.store, self.name, self.content_type)
 
     def raises_PreconditionFailure(self, data):
         return put_refused(self.store, self.name, self.content_type, data)
 
     def exc_PreconditionFailure(self, data, exc):
-        f = upload_file(self.store, self.name, self.content_type, data)
-        return exc.precondition == ("{urn:ietf:params:xml:ns:caldav}valid-calendar-data" if not valid_file(f)
+        return exc.precondition == ("{urn:ietf:params:xml:ns:caldav}valid-calendar-data"
+                                    if not accepted_upload(self.store, self.name, self.content_type, data)
                                     else "{urn:ietf:params:xml:ns:caldav}no-uid-conflict")
 
     def raises_InvalidETag(self, data, replace_etag):
@@ -82,15 +83,15 @@ class ObjectResource_get_etag:
           modifies=["self.store._fname_to_uid", "self.store._uid_to_fname", "self.store.ghost_M"],
           modifies_on_raise=["self.store._fname_to_uid", "self.store._uid_to_fname"])
 class Collection_create_member:
-    def requires(self):
-        return import_pre(self.store)
+    def requires(self, name, content_type):
+        return import_pre(self.store, name, content_type)
 
     def raises_PreconditionFailure(self, name, contents, content_type):
         return put_refused(self.store, name, content_type, contents)
 
     def exc_PreconditionFailure(self, name, contents, content_type, exc):
-        f = upload_file(self.store, name, content_type, contents)
-        return exc.precondition == ("{urn:ietf:params:xml:ns:caldav}valid-calendar-data" if not valid_file(f)
+        return exc.precondition == ("{urn:ietf:params:xml:ns:caldav}valid-calendar-data"
+                                    if not accepted_upload(self.store, name, content_type, contents)
                                     else "{urn:ietf:params:xml:ns:caldav}no-uid-conflict")
 
     def raises_ResourceLocked(self, name, contents, content_type):
